@@ -311,5 +311,135 @@ def binomialTimesMonomial (minVars maxVars : Nat) (simple : Bool) (pp lp : Rat) 
       some (.timesMonomial f0 f1 t1, 3)
     | _ => none
 
+/-! ### `gen_simplify_multiple_terms` -/
+
+/-- a term template: variable and optional power (`f"{var}{maybe_power(..)}"`) -/
+abbrev Template := Char × Option (List Char)
+
+/-- generic Fisher–Yates shuffle with the draw pattern of `shuffle` -/
+def swapAtG {α : Type} (l : List α) (i j : Nat) : List α :=
+  match l[i]?, l[j]? with
+  | some a, some b => (l.set i b).set j a
+  | _, _ => l
+
+def shuffleFromG {α : Type} : Nat → List α → Stream → List α × Stream
+  | 0, l, s => (l, s)
+  | i + 1, l, s =>
+    let (j, s) := draw (i + 2) s
+    shuffleFromG i (swapAtG l (i + 1) j) s
+
+def shuffleG {α : Type} (l : List α) (s : Stream) : List α × Stream := shuffleFromG (l.length - 1) l s
+
+/-- `for var in templates: f"{var}{maybe_power(pc)}"` -/
+def adorn (pc : Rat) : List Char → Stream → List Template × Stream
+  | [], s => ([], s)
+  | v :: vs, s =>
+    let (p, s) := maybePower pc s
+    let (r, s) := adorn pc vs s
+    ((v, p) :: r, s)
+
+/-- the noise loops: pop variables from the end, each with a `maybe_power` -/
+def noiseTemplates (pc : Rat) : Nat → List Char → Stream → (List Template × List Char) × Stream
+  | 0, vars, s => (([], vars), s)
+  | n + 1, vars, s =>
+    match vars.getLast? with
+    | none => (([], vars), s)
+    | some v =>
+      let (p, s) := maybePower pc s
+      let ((ts, left), s) := noiseTemplates pc n vars.dropLast s
+      (((v, p) :: ts, left), s)
+
+/-- the operator source: `op=None` → `rand_op()`; a fixed operator; a list → `random.choice` -/
+inductive OpSpec where
+  | random
+  | fixed (o : POpr)
+  | choice (os : List POpr)
+
+def oprOfIndex : Nat → POpr
+  | 0 => .plus | 1 => .minus | _ => .times
+
+def getOp (spec : OpSpec) (s : Stream) : POpr × Stream :=
+  match spec with
+  | .random => let (i, s) := randint 0 2 s; (oprOfIndex i, s)
+  | .fixed o => (o, s)
+  | .choice os => let (i, s) := draw os.length s; (os.getD i .plus, s)
+
+/-- the tail loop: one `(operator, term)` per remaining template -/
+def simplifyTail (spec : OpSpec) (optionalVar : Bool) (ovp : Rat) : List Template → Stream → List (POpr × PItem) × Stream
+  | [], s => ([], s)
+  | (v, p) :: ts, s =>
+    let (keep, s) := if optionalVar then randBool ovp s else (true, s)
+    let (item, s) : PItem × Stream :=
+      if keep then
+        let (c, s) := maybeNumber 80 s
+        (.term c v p, s)
+      else
+        let (c, s) := randNumber s
+        (.num c, s)
+    let (o, s) := getOp spec s
+    let (r, s) := simplifyTail spec optionalVar ovp ts s
+    ((o, item) :: r, s)
+
+/-- `gen_simplify_multiple_terms(num_terms, optional_var, op, …)`; the probabilities are passed
+multiplied by 100; `numLike` = `max(2, int(num_terms * inner_terms_scaling))` is computed by the
+caller (float arithmetic); `noiseTerms` = the explicit `noise_terms` argument if given -/
+def simplifyMultipleTerms (numTerms numLike : Nat) (optionalVar : Bool) (spec : OpSpec)
+    (pp ovp np sp svp gp : Rat) (noiseArg : Option Nat) (s : Stream) : Option (FlatProblem × Nat) :=
+  let (useGroup, s) := randBool gp s
+  let (useNoise, s) := randBool np s
+  if numTerms ≤ 1 then none else
+  let numLike := if numTerms = 2 then 1 else numLike
+  match getRandVarsS numLike [] s with
+  | (none, _) => none
+  | (some likeVars, s) =>
+    let (shareVar, s) := randBool svp s
+    -- shared variable handling
+    let first := likeVars.headD 'a'
+    let likeShare := shareVar && decide (1 < numLike) && !useNoise
+    let (sharedPow, s) := if shareVar then
+        let (p, s) := maybePower 100 s; (p, s)
+      else (none, s)
+    -- templates: with `likeShare` the first two are (first, no power yet) and (first, sharedPow) and are NOT adorned
+    let (templates, s) : List Template × Stream :=
+      if likeShare then
+        let (rest, s) := adorn pp (likeVars.drop 2) s
+        ((first, none) :: (first, sharedPow) :: rest, s)
+      else adorn pp likeVars s
+    let sharedTemplate : Option Template := if shareVar && !likeShare then some (first, sharedPow) else none
+    -- repeat and trim, then the shared template
+    let repeated := ((List.replicate numTerms templates).flatten).take numTerms
+    let templates := repeated ++ (match sharedTemplate with | some t => [t] | none => [])
+    -- noise
+    let res : Option ((List Template × Nat) × Stream) :=
+      if useNoise then
+        let numNoise := match noiseArg with | some n => n | none => min 5 (max 1 (numTerms / 3))
+        match getRandVarsS numNoise likeVars s with
+        | (none, _) => none
+        | (some noiseVars, s) =>
+          let ((lo, hi), s) := splitS numNoise s
+          let ((front, noiseVars), s) := noiseTemplates pp lo noiseVars s
+          let ((back, _), s) := noiseTemplates pp hi noiseVars s
+          -- `insert(0, …)` reverses the order of the front terms
+          some ((front.reverse ++ templates ++ back, numTerms + 1), s)
+      else some ((templates, numTerms), s)
+    match res with
+    | none => none
+    | some ((templates, complexity), s) =>
+      let (doShuffle, s) := randBool sp s
+      let (templates, s) := if doShuffle then shuffleG templates s else (templates, s)
+      let (group, s) : Option (Nat × Nat) × Stream :=
+        if useGroup then
+          let half := max (templates.length / 2) 1
+          let (gs, s) := randint 0 (half - 1) s
+          let (ge, s) := randint half (templates.length - 1) s
+          (some (gs, ge), s)
+        else (none, s)
+      match templates with
+      | [] => none
+      | (v, p) :: rest =>
+        let (c, s) := maybeNumber 80 s
+        let (tail, _) := simplifyTail spec optionalVar ovp rest s
+        some (⟨.term c v p, tail, group⟩, complexity)
+
 end Gen
 end Mathy
